@@ -22,3 +22,10 @@ c = contract(f"{M}:is_success_code", props=["C06"], nothrow=True)
 @c.ensures
 def success_range(code, result):
     return result == (200 <= code and code < 300)
+
+# get_exception_class_name is a pure function of the code: at call sites its result is an uninterpreted function of the
+# argument (callers only need "the same name for the same code"); its own properties (injective on 100..599, valid
+# identifier, no builtin shadowed) are a finite exhaustive check over the whole status range (props/C06.py).
+c = contract(f"{M}:get_exception_class_name", props=["C06", "C01", "C11"], functional="get_exception_class_name")
+
+c = contract(f"{M}:get_status_name", props=["C06"], functional="get_status_name")
